@@ -231,3 +231,44 @@ void h_cplx_to_tnx32(void) {
   }
   VF_REACH();
 }
+
+/* ------------------------------------------------------------------ the conversions a MODULE actually carries (C01):
+ * the product pipelines are analysed with contract stubs in place of these two kernels; the stubs are justified only if the
+ * kernels selected by the real fill_module_precomp meet the contracts on the windows the precision budget needs:
+ * int64 -> double exact for |x| < 2^50, double -> int64 within 1/2 of x/m for |x/m| < 2^52 (products inside the 52-bit budget). */
+#ifdef MODULE_CONV
+#include "apimod.h"
+void h_module_from_znx64(void) {
+  vf_fullmod fm;
+  vf_fullmod_init_fft64(&fm, AVX);
+  int64_t* x = (int64_t*)vf_alloc_words_raw(NN);
+  double* out = alloc_d(NN);
+  for (unsigned i = 0; i < NN; ++i) {
+    x[i] = vf_i64();
+    VF_ASSUME(x[i] > -(INT64_C(1) << 50) && x[i] < (INT64_C(1) << 50));
+  }
+  reim_from_znx64(fm.mod.mod.fft64.p_conv, out, x);
+  for (unsigned i = 0; i < NN; ++i) VF_ASSERT(dbits(out[i]) == dbits((double)x[i]), "module's int64 -> double conversion is exact for |x| < 2^50");
+  VF_REACH();
+}
+void h_module_to_znx64(void) {
+  vf_fullmod fm;
+  vf_fullmod_init_fft64(&fm, AVX);
+  const double d = (double)(NN / 2);
+  double* x = alloc_d(NN);
+  int64_t* out = (int64_t*)vf_alloc_words(NN);
+  const double lim = pow2(52) * d;
+  for (unsigned i = 0; i < NN; ++i) {
+    x[i] = vf_f64();
+    VF_ASSUME(x[i] > -lim && x[i] < lim);
+  }
+  VF_ASSERT(fm.mod.mod.fft64.p_reim_to_znx->divisor == d, "module's rounding conversion divides by m");
+  reim_to_znx64(fm.mod.mod.fft64.p_reim_to_znx, out, x);
+  for (unsigned i = 0; i < NN; ++i) {
+    VF_ASSERT(out[i] >= -(INT64_C(1) << 52) && out[i] <= (INT64_C(1) << 52), "result magnitude");
+    double e = (double)out[i] * d - x[i];
+    VF_ASSERT(e <= d / 2 && e >= -d / 2, "module's double -> int64 conversion is within 1/2 of x/m for |x/m| < 2^52");
+  }
+  VF_REACH();
+}
+#endif
